@@ -45,5 +45,7 @@ func (n *Node) DialFaulty(name string) (*Client, *FaultConn) {
 	a, b := net.Pipe()
 	fc := &FaultConn{Conn: b}
 	go n.Manager.Setup(n.ctx, transport.Metadata{Name: "tcp", Channel: fc, RemoteAddress: name})
-	return NewClient(name, a), fc
+	c := NewClient(name, a)
+	n.track(c)
+	return c, fc
 }
